@@ -15,6 +15,12 @@ E1 (bounded exhaustive enumeration against mc/ref_c10.py, the definitions on poi
            alphabet (perms <= 3, simples 4..6, monotone 4..6), total length <= 11 (quick) / 13;
            the window-scanning observers (decomp, blocks, mono groups) against brute force.
   long     (thorough) every permutation of length 9, blocks group.
+  scale    structured permutations (identity, reverse, k*i mod n, rotations, one transposition,
+           layered, 2413 (+) identity, 2413[identity], q-then-decreasing) at lengths straddling
+           runtime thresholds (12, 31..34, 255..259, 300; thorough also 9..11, 63..65, 127..129,
+           511..513): every unary observer with polynomial references; on the core shapes every
+           operation that takes an index / value / amount, arguments within 1 of 0, 8, 32, 256, 257,
+           n-1, n, n+1 handed over as freshly made ints, plus defaults.
   duality  every q: q is in coveredby(c) for each child c of q and in children(r) for each r in
            coveredby(q) (implementation against itself).
   insert   every (p, index, value) with 0 <= index <= n+1, 0 <= value <= n, defaults included;
@@ -163,10 +169,23 @@ FRESH_MAX = 6     # the second-call observations are made for permutations up to
 SCAN_GROUPS = ("decomp", "blocks", "mono")     # the observers that scan windows of the permutation
 
 
-def unary_observations(Perm, p, cover, full=True, groups=None):
+def fresh_int(k):
+    """An int equal to k that is NOT the object stored in any tuple (CPython shares only the
+    ints -5..256)."""
+    return int(str(k))
+
+
+AS_PATTERN_MAX = 3000    # long perms: block_decomposition_as_pattern only below this many blocks
+STRONG_MAX = 40          # long SIMPLE perms: is_strongly_simple only up to this length
+
+
+def unary_observations(Perm, p, cover, full=True, groups=None, big=None):
     """[(sub, op, thunk, expected)] for one permutation p (a tuple).  cover: set of the perms of
     length n+1 covering p, or None when the table is not available for this length.
-    full=False leaves out the removal family (n ... 3n calls, explored by `insert` as well)."""
+    full=False leaves out the removal family (n ... 3n calls, explored by `insert` as well).
+    big: None, or {"positions": [...]} for a long permutation: polynomial references
+    (X.intervals_minmax, X.monotone_runs_linear), removal family only at the given positions /
+    values, the two quadratic-per-block observers only within AS_PATTERN_MAX / STRONG_MAX."""
     C = Conv(Perm)
     n = len(p)
     P = Perm(p)
@@ -200,12 +219,14 @@ def unary_observations(Perm, p, cover, full=True, groups=None):
         add("decomp", dec + ":parts_indecomposable", parts_indecomposable, [False] * len(refdec))
 
     # ---- intervals ---------------------------------------------------------------------
-    iv = X.intervals(p)
+    iv = X.intervals_minmax(p) if big else X.intervals(p)
     add("blocks", "block_decomposition",
-        lambda: [sorted(b) for b in P.block_decomposition()], X.block_table(p))
-    add("blocks", "block_decomposition_as_pattern",
-        lambda: C.pset(P.block_decomposition_as_pattern()),
-        sorted({X.ranks(p[s:s + length]) for length, ss in iv.items() for s in ss}))
+        lambda: [sorted(b) for b in P.block_decomposition()],
+        [iv.get(length, []) for length in range(n)])
+    if not big or sum(len(ss) for ss in iv.values()) <= AS_PATTERN_MAX:
+        add("blocks", "block_decomposition_as_pattern",
+            lambda: C.pset(P.block_decomposition_as_pattern()),
+            sorted({X.ranks(p[s:s + length]) for length, ss in iv.items() for s in ss}))
     if iv:
         top = max(iv)
         exp_max = Pred(lambda g: len(g) == 2 and g[0] == top and g[1] in iv[top],
@@ -215,12 +236,18 @@ def unary_observations(Perm, p, cover, full=True, groups=None):
     add("blocks", "maximum_block", lambda: tuple(P.maximum_block()), exp_max)
     add("blocks", "simple_location", lambda: tuple(P.simple_location()), exp_max)
     add("blocks", "is_simple", lambda: P.is_simple(), not iv)
-    add("blocks", "is_strongly_simple", lambda: P.is_strongly_simple(), X.is_strongly_simple(p))
+    if not big:
+        add("blocks", "is_strongly_simple", lambda: P.is_strongly_simple(), X.is_strongly_simple(p))
+    elif iv:
+        add("blocks", "is_strongly_simple", lambda: P.is_strongly_simple(), False)
+    elif n <= STRONG_MAX:
+        add("blocks", "is_strongly_simple", lambda: P.is_strongly_simple(),
+            all(not X.intervals_minmax(c) for c in X.children(p)))
 
     # ---- monotone blocks, contractions ---------------------------------------------------
     for suffix, steps in STEPS.items():
         name = "monotone_block_decomposition" + suffix
-        runs = X.monotone_runs(p, steps, False)
+        runs = (X.monotone_runs_linear if big else X.monotone_runs)(p, steps, False)
         for ones, exp in ((False, runs), (True, X.with_singletons(n, runs))):
             add("mono", "%s(%s)" % (name, ones),
                 lambda name=name, ones=ones: [tuple(b) for b in getattr(P, name)(ones)], exp)
@@ -237,12 +264,12 @@ def unary_observations(Perm, p, cover, full=True, groups=None):
         add("covers", "coveredby", lambda: C.pset(P.coveredby()), sorted(cover))
 
     # ---- removal ---------------------------------------------------------------------------
-    for i in range(n if full else 0):
-        add("remove", "remove(%d)" % i, lambda i=i: C.p(P.remove(i)), X.remove_at(p, i))
-        add("remove", "remove_element(%d)" % i, lambda i=i: C.p(P.remove_element(i)),
+    for i in ((range(n) if not big else big["positions"]) if full else ()):
+        add("remove", "remove(%d)" % i, lambda i=i: C.p(P.remove(fresh_int(i))), X.remove_at(p, i))
+        add("remove", "remove_element(%d)" % i, lambda i=i: C.p(P.remove_element(fresh_int(i))),
             X.remove_value(p, i))
         add("remove", "remove(%d).insert(%d,%d)" % (i, i, p[i]),
-            lambda i=i: C.p(P.remove(i).insert(i, p[i])), p)
+            lambda i=i: C.p(P.remove(fresh_int(i)).insert(fresh_int(i), fresh_int(p[i]))), p)
     top_removed = X.remove_value(p, n - 1) if n else ()
     add("remove", "remove()", lambda: C.p(P.remove()), top_removed)
     add("remove", "remove_element()", lambda: C.p(P.remove_element()), top_removed)
@@ -262,10 +289,11 @@ def unary_observations(Perm, p, cover, full=True, groups=None):
     return out
 
 
-def check_unary(part, Perm, p, cover, after=None, full=True, groups=None):
-    case0 = {"perm": p, "after": after}
+def check_unary(part, Perm, p, cover, after=None, full=True, groups=None, big=None, case0=None):
+    if case0 is None:
+        case0 = {"perm": p, "after": after}
     bad = 0
-    obs = unary_observations(Perm, p, cover, full, groups)
+    obs = unary_observations(Perm, p, cover, full, groups, big)
     for sub, op, thunk, exp in obs:
         case = dict(case0, op=op)
         if not observe(part, sub, case, thunk, exp):
@@ -389,6 +417,163 @@ def shard_long(shard):
 
 
 # --------------------------------------------------------------------------------------------
+# scale: structured long permutations at lengths that straddle runtime thresholds (set-table
+# sizes 8 / 32, the small-int cache 256 / 257), arguments around the same thresholds handed over
+# as freshly made ints, same oracles (polynomial variants of the references for the scans)
+# --------------------------------------------------------------------------------------------
+
+THRESHOLDS = (0, 8, 32, 256, 257)
+
+
+def window(hi, centres, width=1):
+    """Every k in 0..hi within `width` of one of the centres."""
+    return sorted({k for c in centres for k in range(c - width, c + width + 1) if 0 <= k <= hi})
+
+
+def build_shape(desc):
+    name, n, a = desc
+    if name == "id":
+        return tuple(range(n))
+    if name == "rev":
+        return tuple(range(n - 1, -1, -1))
+    if name == "swap":              # identity with the adjacent transposition (a, a+1)
+        lst = list(range(n))
+        lst[a], lst[a + 1] = lst[a + 1], lst[a]
+        return tuple(lst)
+    if name == "mult":              # i -> a * i mod n, gcd(a, n) = 1
+        assert math.gcd(a, n) == 1
+        return tuple(a * i % n for i in range(n))
+    if name == "rot":               # i -> i + a mod n
+        return tuple((i + a) % n for i in range(n))
+    if name == "layered":           # direct sum of decreasing blocks of size a (last one shorter)
+        out = []
+        for lo in range(0, n, a):
+            out.extend(range(min(n, lo + a) - 1, lo - 1, -1))
+        return tuple(out)
+    if name == "2413+id":
+        return (1, 3, 0, 2) + tuple(range(4, n))
+    if name == "2413-dec":
+        return tuple(v + n - 4 for v in (1, 3, 0, 2)) + tuple(range(n - 5, -1, -1))
+    if name == "qdec":              # first value a, then everything else decreasing
+        return (a,) + tuple(v for v in range(n - 1, -1, -1) if v != a)
+    if name == "2413[id]":          # the simple 2413 with its first point inflated by an identity
+        return X.inflate((1, 3, 0, 2), [tuple(range(n - 3)), None, None, None])
+    raise ValueError(desc)
+
+
+def scale_shapes(n):
+    """(descriptor, core?) for one length; core shapes also get the argument-taking operations."""
+    mults = [k for k in (2, 3, 5, 7, 11) if math.gcd(k, n) == 1][:3]
+    out = [(("id", n, 0), True), (("rev", n, 0), True)]
+    out += [(("mult", n, k), i == 0) for i, k in enumerate(mults)]
+    out += [(("rot", n, r), r == 1) for r in sorted({1, 2, n // 2, n - 1})]
+    out += [(("swap", n, j), j == min(256, n - 2)) for j in window(n - 2, THRESHOLDS + (n - 2,), 0)]
+    out += [(("layered", n, s), False) for s in (2, 3)]
+    out += [(("2413+id", n, 0), False), (("2413-dec", n, 0), False), (("2413[id]", n, 0), True)]
+    out += [(("qdec", n, q), q == min(257, n - 1)) for q in window(n - 1, THRESHOLDS + (n - 1,), 0)]
+    return out
+
+
+def check_scale(part, Perm, desc, core):
+    C = Conv(Perm)
+    desc = tuple(desc)
+    p = build_shape(desc)
+    assert X.is_perm(p), desc
+    n = len(p)
+    P = Perm(p)
+    case0 = {"shape": list(desc)}
+    count = [0]
+
+    def ob(sub, op, thunk, exp):
+        count[0] += 1
+        return observe(part, sub, dict(case0, op=op), thunk, exp)
+
+    # ---- every unary observer (polynomial references) ---------------------------------------
+    pos = window(n - 1, THRESHOLDS + (n - 1,), 1)
+    cover = None
+    if n <= 34:      # covers by construction: every one-point insertion of the point-set definition
+        cover = {X.insert(p, i, v) for i in range(n + 1) for v in range(n + 1)}
+    before = part.counters.get("unary_observations", 0) if hasattr(part, "counters") else 0
+    check_unary(part, Perm, p, cover, big={"positions": pos}, case0=case0)
+    if hasattr(part, "counters"):
+        count[0] += part.counters.get("unary_observations", 0) - before
+    if not core:
+        part.add(count[0], count[0] if n >= 258 else 0)
+        return
+
+    # ---- insert / remove round trips around the thresholds ------------------------------------
+    check_insert(part, Perm, p, indices=window(n + 1, THRESHOLDS + (n - 1, n, n + 1), 1),
+                 values=window(n, THRESHOLDS + (n - 1, n), 1), case0=case0)
+
+    # ---- shifts ---------------------------------------------------------------------------------
+    cent = THRESHOLDS + (n - 1, n, n + 1)
+    amounts = sorted({s * k for c in cent for k in range(c - 1, c + 2) for s in (1, -1)})
+    pairs = sorted({1, -1, 257, -257, n - 1, n + 1} & set(amounts))
+    check_shift(part, Perm, p, 0, amounts=amounts, pair_amounts=pairs, case0=case0)
+
+    # ---- composition with structured partners of the same length --------------------------------
+    partners = [("id", n, 0), ("rev", n, 0), ("rot", n, 1), ("inverse-of-self", n, 0)]
+    k = next(k for k in (2, 3, 5, 7, 11) if math.gcd(k, n) == 1)
+    partners.append(("mult", n, k))
+    built = {}
+    for d in partners:
+        built[d] = X.inverse(p) if d[0] == "inverse-of-self" else build_shape(d)
+    for d in partners:
+        q = built[d]
+        Q = Perm(q)
+        exp = X.compose(p, q)
+        ob("compose", "compose(%s %s)" % (d[0], d[2]), lambda: C.p(P.compose(Q)), exp)
+        ob("compose", "(p*%s %s)^-1" % (d[0], d[2]),
+           lambda: [C.p(P.compose(Q).inverse()), C.p(Q.inverse().compose(P.inverse()))],
+           [X.inverse(exp)] * 2)
+    q, r = built[("rev", n, 0)], built[("mult", n, k)]
+    ob("compose", "associativity(rev, mult %d)" % k,
+       lambda: [C.p(P.compose(Perm(q)).compose(Perm(r))), C.p(P.compose(Perm(q).compose(Perm(r)))),
+                C.p(P.compose(Perm(q), Perm(r)))], [X.compose(p, q, r)] * 3)
+
+    # ---- sums -----------------------------------------------------------------------------------
+    small = (1, 0)
+    for name, comps in (("p,10", (p, small)), ("10,p", (small, p)), ("p,p", (p, p)),
+                        ("10,p,e,10", (small, p, (), small)), ("e,p", ((), p))):
+        cs = [Perm(x) for x in comps]
+        for op, ref in (("direct_sum", X.direct_sum), ("skew_sum", X.skew_sum)):
+            ob("sums", "%s(%s)" % (op, name), lambda op=op: C.p(getattr(cs[0], op)(*cs[1:])),
+               ref(*comps))
+
+    # ---- inflation --------------------------------------------------------------------------------
+    ob("inflate", "inflate(all None)", lambda: C.p(P.inflate([None] * n)), p)
+    for j in pos:
+        for a in ((), (1, 0), (0, 2, 1)):
+            comps = [None] * n
+            comps[j] = a
+            ob("inflate", "inflate(None.. except [%d]=%r)" % (j, a),
+               lambda: C.p(P.inflate([None if x is None else Perm(x) for x in comps])),
+               X.inflate(p, comps))
+    ob("inflate", "10.inflate([p, p])", lambda: C.p(Perm((1, 0)).inflate([P, P])),
+       X.inflate((1, 0), [p, p]))
+    ident = tuple(range(n))
+    ob("inflate", "2413.inflate([p, None, e, id])",
+       lambda: C.p(Perm((1, 3, 0, 2)).inflate([P, None, Perm(()), Perm(ident)])),
+       X.inflate((1, 3, 0, 2), [p, None, (), ident]))
+    part.add(count[0], count[0] if n >= 258 else 0)
+
+
+def shard_scale(shard):
+    desc, core = shard
+    Perm = _P()
+    part = Partial()
+    check_scale(part, Perm, desc, core)
+    part.bump("scale_shapes")
+    if desc[0] == "mult" and desc[1] == 258 and core:
+        p = build_shape(desc)
+        part.sample({"sub": "scale", "shape": list(desc), "first_values": p[:8],
+                     "remove_element(257)[:8]": X.remove_value(p, 257)[:8],
+                     "number_of_intervals": sum(len(v) for v in X.intervals_minmax(p).values())},
+                    cap=1)
+    return part
+
+
+# --------------------------------------------------------------------------------------------
 # duality of children and coveredby, on the implementation alone
 # --------------------------------------------------------------------------------------------
 
@@ -422,41 +607,47 @@ def shard_duality(shard):
 # insert
 # --------------------------------------------------------------------------------------------
 
-def check_insert(part, Perm, p):
+def check_insert(part, Perm, p, indices=None, values=None, case0=None):
+    """indices / values: None = every index 0..n+1 / every value 0..n.  Arguments are handed over
+    as freshly made ints."""
     C = Conv(Perm)
     n = len(p)
     P = Perm(p)
+    indices = list(range(n + 2)) if indices is None else indices
+    values = list(range(n + 1)) if values is None else values
+    case0 = {"perm": p} if case0 is None else case0
     nontriv = 0
-    for i in range(n + 2):
-        for v in range(n + 1):
-            base = {"perm": p, "index": i, "value": v}
+    for i in indices:
+        for v in values:
+            base = dict(case0, index=i, value=v)
             exp = X.insert(p, i, v)
             holder = {}
 
             def ins():
-                holder["q"] = P.insert(i, v)
+                holder["q"] = P.insert(fresh_int(i), fresh_int(v))
                 return C.p(holder["q"])
             if observe(part, "insert", dict(base, op="insert"), ins, exp):
                 Q = holder["q"]
                 observe(part, "insert", dict(base, op="insert.remove"),
-                        lambda: C.p(Q.remove(min(i, n))), p)
+                        lambda: C.p(Q.remove(fresh_int(min(i, n)))), p)
                 observe(part, "insert", dict(base, op="insert.remove_element"),
-                        lambda: C.p(Q.remove_element(v)), p)
+                        lambda: C.p(Q.remove_element(fresh_int(v))), p)
             if 0 < i < n and 0 < v < n:
                 nontriv += 1
-    cases = (n + 2) * (n + 1)
+    cases = len(indices) * len(values)
     # defaults: index -> right end, value -> n
-    observe(part, "insert", {"perm": p, "op": "insert()"}, lambda: C.p(P.insert()),
+    observe(part, "insert", dict(case0, op="insert()"), lambda: C.p(P.insert()),
             X.insert(p, n, n))
-    for i in range(n + 2):
-        observe(part, "insert", {"perm": p, "index": i, "op": "insert(index)"},
-                lambda: C.p(P.insert(i)), X.insert(p, i, n))
-        observe(part, "insert", {"perm": p, "index": i, "op": "insert(index=)"},
-                lambda: C.p(P.insert(index=i)), X.insert(p, i, n))
-    for v in range(n + 1):
-        observe(part, "insert", {"perm": p, "value": v, "op": "insert(new_element=)"},
-                lambda: C.p(P.insert(new_element=v)), X.insert(p, n, v))
-    cases += 1 + 2 * (n + 2) + (n + 1)
+    observe(part, "insert", dict(case0, op="insert().remove()"), lambda: C.p(P.insert().remove()), p)
+    for i in indices:
+        observe(part, "insert", dict(case0, index=i, op="insert(index)"),
+                lambda: C.p(P.insert(fresh_int(i))), X.insert(p, i, n))
+        observe(part, "insert", dict(case0, index=i, op="insert(index=)"),
+                lambda: C.p(P.insert(index=fresh_int(i))), X.insert(p, i, n))
+    for v in values:
+        observe(part, "insert", dict(case0, value=v, op="insert(new_element=)"),
+                lambda: C.p(P.insert(new_element=fresh_int(v))), X.insert(p, n, v))
+    cases += 2 + 2 * len(indices) + len(values)
     part.add(cases, nontriv)
 
 
@@ -476,15 +667,19 @@ def shard_insert(shard):
 # shifts
 # --------------------------------------------------------------------------------------------
 
-def check_shift(part, Perm, p, amax):
+def check_shift(part, Perm, p, amax, amounts=None, pair_amounts=None, case0=None):
+    """amounts: None = -amax..amax; pair_amounts: the amounts used for the two-shift laws (None =
+    the same range).  Amounts are handed over as freshly made ints."""
     C = Conv(Perm)
     n = len(p)
     P = Perm(p)
-    rng = range(-amax, amax + 1)
+    rng = list(range(-amax, amax + 1)) if amounts is None else amounts
+    prng = rng if pair_amounts is None else pair_amounts
+    case0 = {"perm": p} if case0 is None else case0
     single = {}
     ok_all = True
     for a in rng:
-        base = {"perm": p, "a": a}
+        base = dict(case0, a=a)
         for op, exp in (("shift_right", X.shift_right(p, a)), ("shift_left", X.shift_right(p, -a)),
                         ("shift_up", X.shift_up(p, a)), ("shift_down", X.shift_up(p, -a)),
                         ("cyclic_shift", X.shift_right(p, a)),
@@ -492,7 +687,7 @@ def check_shift(part, Perm, p, amax):
             holder = {}
 
             def call(op=op):
-                holder["q"] = getattr(P, op)(a)
+                holder["q"] = getattr(P, op)(fresh_int(a))
                 return C.p(holder["q"])
             if observe(part, "shift", dict(base, op=op), call, exp):
                 single[(op, a)] = holder["q"]
@@ -500,26 +695,28 @@ def check_shift(part, Perm, p, amax):
                 ok_all = False
     for op, exp in (("shift_right", X.shift_right(p, 1)), ("shift_left", X.shift_right(p, -1)),
                     ("shift_up", X.shift_up(p, 1)), ("shift_down", X.shift_up(p, -1))):
-        observe(part, "shift", {"perm": p, "op": op + "()"}, lambda op=op: C.p(getattr(P, op)()), exp)
+        observe(part, "shift", dict(case0, op=op + "()"), lambda op=op: C.p(getattr(P, op)()), exp)
     nontriv = 0
     cases = 6 * len(rng) + 4
     if ok_all:
-        for a in rng:
+        for a in prng:
             R, U = single[("shift_right", a)], single[("shift_up", a)]
-            for b in rng:
-                base = {"perm": p, "a": a, "b": b}
+            for b in prng:
+                base = dict(case0, a=a, b=b)
+                fb = fresh_int(b)
                 observe(part, "shift", dict(base, op="right(a).right(b)=right(a+b)"),
-                        lambda: [C.p(R.shift_right(b)), C.p(P.shift_right(a + b))],
+                        lambda: [C.p(R.shift_right(fb)), C.p(P.shift_right(a + b))],
                         [X.shift_right(p, a + b)] * 2)
                 observe(part, "shift", dict(base, op="up(a).up(b)=up(a+b)"),
-                        lambda: [C.p(U.shift_up(b)), C.p(P.shift_up(a + b))],
+                        lambda: [C.p(U.shift_up(fb)), C.p(P.shift_up(a + b))],
                         [X.shift_up(p, a + b)] * 2)
                 observe(part, "shift", dict(base, op="right(a).left(b)=right(a-b)"),
-                        lambda: C.p(R.shift_left(b)), X.shift_right(p, a - b))
+                        lambda: C.p(R.shift_left(fb)), X.shift_right(p, a - b))
                 observe(part, "shift", dict(base, op="up(a).down(b)=up(a-b)"),
-                        lambda: C.p(U.shift_down(b)), X.shift_up(p, a - b))
+                        lambda: C.p(U.shift_down(fb)), X.shift_up(p, a - b))
                 observe(part, "shift", dict(base, op="right(a).up(b)=up(b).right(a)"),
-                        lambda: [C.p(R.shift_up(b)), C.p(single[("shift_up", b)].shift_right(a))],
+                        lambda: [C.p(R.shift_up(fb)),
+                                 C.p(single[("shift_up", b)].shift_right(fresh_int(a)))],
                         [X.shift_up(X.shift_right(p, a), b)] * 2)
                 cases += 5
                 if n >= 3 and a % n and b % n:
@@ -710,7 +907,8 @@ def run(ctx, only=None):
 
     quick = ctx.quick
     Perm = _P()
-    ctx.rule = ("unary, long: permutations of length >= 3 that are not monotone; inflations: distinct "
+    ctx.rule = ("scale: observations on shapes of length >= 258 (insert / shift cases inside it by "
+                "their own rule); unary, long: permutations of length >= 3 that are not monotone; inflations: distinct "
                 "members of length >= 9; duality: length >= 2; "
                 "insert: 0 < index < n and 0 < value < n; shift: law instances with n >= 3 and neither "
                 "amount = 0 mod n; "
@@ -783,6 +981,43 @@ def run(ctx, only=None):
         ctx.bounds["long"] = "every permutation of length 9: the blocks group (block_decomposition, " \
                              "as_pattern, maximum_block, simple_location, is_simple, is_strongly_simple)"
         ctx.section("long", perms=ctx.evals - e0)
+
+    # ---- scale ------------------------------------------------------------------------------
+    if want("scale"):
+        # the polynomial references are used only after agreeing with the brute-force ones
+        for q in upto(6):
+            assert X.intervals(q) == X.intervals_minmax(q), q
+            for steps in STEPS.values():
+                for ones in (False, True):
+                    assert X.monotone_runs(q, steps, ones) == X.monotone_runs_linear(q, steps, ones), q
+        sizes = [12, 31, 32, 33, 34, 255, 256, 257, 258, 259, 300]
+        if not quick:
+            sizes = sorted(sizes + [9, 10, 11, 63, 64, 65, 127, 128, 129, 511, 512, 513])
+        shards = [sh for n in sizes for sh in scale_shapes(n)]
+        e0 = ctx.evals
+        ctx.pmap(shard_scale, shards)
+        ctx.bounds["scale"] = {
+            "lengths": sizes,
+            "shapes_per_length": "identity, reverse, i->k*i mod n (3 smallest k in 2,3,5,7,11 coprime "
+                                 "to n), rotations by 1, 2, n//2, n-1, identity with one adjacent "
+                                 "transposition at 0, 8, 32, 256, 257, n-2, layered with blocks of 2 / 3, "
+                                 "2413+identity, 2413-decreasing, 2413[identity,1,1,1], 'q then "
+                                 "decreasing' for q = 0, 8, 32, 256, 257, n-1",
+            "all_shapes": "every unary observer; removal family at positions/values within 1 of "
+                          "0, 8, 32, 256, 257, n-1 and defaults; coveredby for n <= 34; "
+                          "block_decomposition_as_pattern below %d blocks; is_strongly_simple of "
+                          "simple shapes up to length %d" % (AS_PATTERN_MAX, STRONG_MAX),
+            "core_shapes": "id, rev, first mult, rot 1, swap 256, 2413[id], qdec 257: insert (index x "
+                           "value windows within 1 of 0, 8, 32, 256, 257, n-1, n(, n+1)) with round "
+                           "trips and defaults; the six shifts by +-(c-1..c+1) for c in 0, 8, 32, 256, "
+                           "257, n-1, n, n+1 and the pair laws over +-1, +-257, n-1, n+1; compose "
+                           "with id, rev, rot 1, own inverse, mult + inverse law + one associativity "
+                           "triple; direct/skew sums with 10 and the empty perm; inflate with one "
+                           "component at each window position replaced by e / 10 / 021, and as a "
+                           "component of 10 and 2413",
+            "arguments": "every index / value / amount is passed as int(str(k)), not as the int "
+                         "object stored in the permutation"}
+        ctx.section("scale", shapes=len(shards), cases=ctx.evals - e0)
 
     # ---- duality ---------------------------------------------------------------------------
     if want("duality"):
@@ -884,7 +1119,9 @@ def replay(ctx, rec):
     Perm = _P()
     sub, case = rec["sub"], rec["case"]
     sink = Collect()
-    if sub in ("decomp", "blocks", "mono", "children", "covers", "remove", "fresh"):
+    if "shape" in case:
+        check_scale(sink, Perm, tuple(case["shape"]), True)
+    elif sub in ("decomp", "blocks", "mono", "children", "covers", "remove", "fresh"):
         p = _tt(case["perm"])
         after = _tt(case.get("after"))
         cover = X.cover_table(len(p))[p] if "coveredby" in case.get("op", "") else None
